@@ -18,7 +18,7 @@ NA = {
 }
 HOOK_COMMITS = []
 # properties whose check has been reviewed, triaged on the unchanged tree and is claimed (maintained by hand)
-CLAIMED = ["C01", "C03", "C02", "C05", "C08", "C09", "C10", "C11", "C12", "C13", "C14", "C15", "C16", "C17", "C18", "C19"]
+CLAIMED = ["C01", "C04", "C03", "C02", "C05", "C08", "C09", "C10", "C11", "C12", "C13", "C14", "C15", "C16", "C17", "C18", "C19"]
 
 checks, na = [], []
 for pid in ALL:
